@@ -1,4 +1,6 @@
 import SgVerif.C26.Model
+import SgVerif.C26.FatTreeSpec
+import SgVerif.C26.DragonflySpec
 import SgVerif.Common.Proto
 open SgVerif.Proto
 /-
@@ -205,7 +207,7 @@ def limIdInt (s : String) : Option Int :=
 
 /-- level of the nearest common ancestor of leaves a, b: 1 + the highest index where their labels (mixed radix `down`,
 index 0 fastest) differ -/
-def ncaLevel (down : List Nat) (a b : Nat) : Nat :=
+def ncaLevelOfIds (down : List Nat) (a b : Nat) : Nat :=
   let la := tcoords down a
   let lbb := tcoords down b
   ((List.range down.length).filter (fun i => la.getD i 0 != lbb.getD i 0)).foldl (fun m i => max m (i + 1)) 0
@@ -220,7 +222,7 @@ def ftMonitor (f : FatTree) (src dst : Nat) (route : List String) : Option Strin
     match cables.mapM parseFt with
     | none => some "not-a-fat-tree-link"
     | some cs =>
-      let k := ncaLevel f.down src dst
+      let k := ncaLevelOfIds f.down src dst
       -- with src = dst and no loopback the code goes up one level and back
       let k := if src == dst then 1 else k
       let ups := cs.take k
@@ -256,6 +258,9 @@ def judgeFt (q : List String) (a : List String) : Verdict :=
       let n := f.nLeaves
       let routes := splitRoutes a
       if routes.length != n then .disagree s!"{n}-routes-expected" else
+      -- hypothesis of the `fattree_*` theorems (proved for `f.build`: `fattree_build_wf`), re-evaluated on the construction of
+      -- every zone (once per zone: first source): a runtime cross-check, cheap
+      if src == 0 && f.paramsOk && !(tb.wfCheck f) then .monfail "fat-tree-construction-not-well-formed (FTables.wfCheck)" else
       let mon := firstBad ((List.range n).zip routes |>.map (fun (d, r) => (d, ftMonitor f src d r)))
       match mon with
       | some (d, m) => .monfail s!"dst={d} {m}"
@@ -368,6 +373,9 @@ def judgeDf (q : List String) (a : List String) : Verdict :=
       let d : Dragonfly := ⟨g, c, r, n, lb, lim, sp == "S", uidOff⟩
       let routes := splitRoutes a
       if routes.length != d.tot then .disagree s!"{d.tot}-routes-expected" else
+      -- `dragonfly_wiring` (proved for all shapes with G <= B) re-evaluated on the tables of every zone (once per zone: first
+      -- source): a runtime cross-check of `peer` against `genLinks`, cheap
+      if src == 0 && decide (d.G ≤ d.B) && !d.wiringOk then .monfail "dragonfly-tables-not-wired-as-peer (Dragonfly.wiringOk)" else
       let mon := firstBad ((List.range d.tot).zip routes |>.map (fun (t, rt) => (t, dfMonitor d src t rt)))
       let bad := (List.range d.tot).zip routes |>.filter (fun (t, rt) =>
           (d.route src t).map (·.map (DLink.name d)) != some rt)
